@@ -87,6 +87,7 @@ EXPORT int printf_s(const char *restrict fmt, ...) {
         }
     }
 
+    errno = 0;
     va_start(va, fmt);
     ret = safec_vsnprintf_s(safec_out_char, "printf_s", buffer, (rsize_t)-1, fmt, va);
     va_end(va);
